@@ -4,18 +4,19 @@ from . import common as C
 
 MANIFEST = dict(
    technique="Lean 4 proof (ParsePrimitive type dispatch + the C10 check-engine theorems + the C16 exactness theorems + exact binary64 rounding lemmas for float MultipleOf) + go/ast method table of the six primitive types regenerated on every run and decided whole (`decide +kernel`) + differential correspondence on real string / integer / float / bool / enum / literal schemas over every Go kind of input",
-   text="c01_accept_iff: for every primitive schema, check chain, environment and non-nil input, Parse succeeds iff the input is a value of the schema's type (or a pointer to one) and no check fails on the value threaded through the overwrites before it; c01_result: the returned value is exactly that threaded value; c01_foreign_rejected; c01_num_holds_spec bridges every numeric check to the mathematical relation (via C16); c01_float_multipleOf: for every pair of binary64 bit patterns the float MultipleOf check equals the documented epsilon-relation on the exact remainder and difference (rounding lemmas in Proofs/FloatMulRound); c01_float_cmp/_nan_rejected/_finite_iff/_safe_iff/_int; c01_enum_iff; seenAt_compose (the returned value is the left-to-right composition of exactly the declared overwrites), trim_idem / lower_idem / upper_idem, strU_apply_ascii / strU_parse_ascii (Go's Unicode TrimSpace/ToLower/ToUpper model = ASCII model on ASCII input); c01_methods_classified: every exported method of ZodString/ZodIntegerTyped/ZodFloatTyped/ZodBool/ZodEnum/ZodLiteral in the CURRENT source is modelled (and delegates to the transcribed check factory) or listed as outside C01 (c01_opaque_methods pins that list). Tie: Gen/PrimMethods.lean and Gen/CaseTable.lean regenerated on every run; every exported constructor of the six types (String/StringPtr, Int8..Uint64/..Ptr, Float/Number/Float32/64/..Ptr, types.Byte/Rune/Integer/IntegerTyped/FloatTyped/StringTyped/BoolTyped incl. instantiations with named Go types, Bool/BoolPtr, Enum/EnumSlice/EnumPtr/Literal/LiteralOf/LiteralPtr) with boundary-directed chains on values, pointers, pointers to pointers and 27 foreign Go kinds; non-ASCII and invalid UTF-8 inputs through every chain (Unicode TrimSpace/ToLower/ToUpper modelled); the implementation is also judged directly by the documented meaning (spec verdict computed without the model's engine; literal regex patterns through the derivative matcher of Model/Regex.lean).",
+   text="c01_accept_iff: for every primitive schema, check chain, environment and non-nil input, Parse succeeds iff the input is a value of the schema's type (or a pointer to one) and no check fails on the value threaded through the overwrites before it; c01_result: the returned value is exactly that threaded value; c01_foreign_rejected; c01_num_holds_spec bridges every numeric check to the mathematical relation (via C16); c01_float_multipleOf: for every pair of binary64 bit patterns the float MultipleOf check equals the documented epsilon-relation on the exact remainder and difference (rounding lemmas in Proofs/FloatMulRound); c01_float_cmp/_nan_rejected/_finite_iff/_safe_iff/_int; c01_enum_iff / c01_enum_spec_iff (Go's == on interface values — the definition the driver runs — accepts exactly 'one of the listed values': same dynamic type and same value, NaN none, +0 = -0; the spec oracle decides that meaning by other means); holds_iff_spec (every string check of the model = its documented meaning Str.Spec: exists prefix / suffix / split, forall byte) and c01_str_accept_iff_spec (acceptance restated with it); seenAt_compose (the returned value is the left-to-right composition of exactly the declared overwrites), trim_idem / lower_idem / upper_idem, strU_apply_ascii / strU_parse_ascii (Go's Unicode TrimSpace/ToLower/ToUpper model = ASCII model on ASCII input); c01_methods_classified: every exported method of ZodString/ZodIntegerTyped/ZodFloatTyped/ZodBool/ZodEnum/ZodLiteral in the CURRENT source is modelled (and delegates to the transcribed check factory) or listed as outside C01 (c01_opaque_methods pins that list). Tie: Gen/PrimMethods.lean and Gen/CaseTable.lean regenerated on every run; every exported constructor of the six types (String/StringPtr, Int8..Uint64/..Ptr, Float/Number/Float32/64/..Ptr, types.Byte/Rune/Integer/IntegerTyped/FloatTyped/StringTyped/BoolTyped incl. instantiations with named Go types, Bool/BoolPtr, Enum/EnumSlice/EnumPtr/Literal/LiteralOf/LiteralPtr) with boundary-directed chains on values, pointers, pointers to pointers and 27 foreign Go kinds; non-ASCII and invalid UTF-8 inputs through every chain (Unicode TrimSpace/ToLower/ToUpper modelled); the implementation is also judged directly by the documented meaning (spec verdict computed without the model's predicates: string checks as regular languages through the derivative matcher of Model/Regex.lean (Str.specHolds), numerics through specHolds, enum/literal through GoEq.specOneOf).",
    note="Trusted: Lean kernel; axioms propext/Classical.choice/Quot.sound at most; harness + comparer; the Go toolchain's unicode tables (regenerated into Gen/CaseTable.lean) and utf8 decoding as transcribed in Model/StrU.lean (Proofs/C01StrU: on ASCII input the Unicode model IS the ASCII model, through the whole engine — strU_parse_ascii; idempotence laws; beyond ASCII the run decides). String semantics are byte-level (Go len/HasPrefix/Contains). Regex: four fixed patterns and pure-literal patterns only; Email/JSON/JWT/MAC are C20's, Normalize/Slugify and Coerce are outside (pinned by c01_opaque_methods). The epsilon of float MultipleOf is the float-computed max(1e-10, |d|*1e-6) of the code comment. Float.Int accepts +-Inf (Trunc(Inf) == Inf), read as 'no fractional part'. Named Go types: foreign for the constructors of the predeclared types (documented strict type semantics); the schema's own type for the generic constructors — where built-in checks reject every value (open numN:*) and StringTyped/BoolTyped accept nothing (open strN:*, boolN:*).",
    design="DESIGN.md §5 C01; notes/C01.md")
 
-MODULES = ["Gozod.Proofs.C01", "Gozod.Proofs.C01Methods", "Gozod.Proofs.C01StrU"]
-THEOREMS = ["Gozod.C01." + t for t in ["c01_accept_iff", "c01_result", "c01_foreign_rejected", "c01_num_holds_spec", "c01_enum_iff", "isIntF_eq_spec",
+MODULES = ["Gozod.Proofs.C01", "Gozod.Proofs.C01Methods", "Gozod.Proofs.C01StrU", "Gozod.Proofs.C01Enum", "Gozod.Proofs.C01StrSpec"]
+THEOREMS = ["Gozod.C01." + t for t in ["c01_accept_iff", "c01_result", "c01_foreign_rejected", "c01_num_holds_spec", "c01_enum_iff", "c01_enum_spec_iff", "c01_enum_model_eq_spec", "c01_enum_nan", "c01_enum_other_type", "goEq_iff", "isIntF_eq_spec",
     "c01_methods_classified", "c01_methods_nonempty", "c01_opaque_methods",
     "c01_float_multipleOf", "c01_float_cmp", "c01_float_nan_rejected", "c01_float_finite_iff", "c01_float_safe_iff", "c01_float_int"]] + [
     "Gozod.FloatMul.implMultF_eq_specMultF", "Gozod.FloatMul.ofBits_rep"] + ["Gozod.C01." + t for t in [
     "trim_ascii", "strU_apply_ascii", "apply_ascii_closed", "strU_run_ascii", "strU_runOn_ascii", "strU_parse_ascii",
     "trim_idem", "trim_no_space_ends", "lower_idem", "upper_idem", "lower_then_lowercase", "upper_then_uppercase",
-    "strU_trim_idem", "strU_lower_idem", "strU_upper_idem", "seenAt_compose", "seenAt_no_overwrite"]]
+    "strU_trim_idem", "strU_lower_idem", "strU_upper_idem", "seenAt_compose", "seenAt_no_overwrite",
+    "holds_iff_spec", "checkFails_iff_spec", "c01_str_accept_iff_spec", "isInfix_iff"]]
 
 def key(op, impl, M, S):
     kind = C.op_body(op).split(" ")[1]
